@@ -98,6 +98,14 @@ Theorem C16_cr_roundtrip_from :
     from_cr u c = Ok x -> x <> NaT -> as_cr u x = Some c.
 Proof. exact from_cr_as_cr. Qed.
 
+(* the conversion from the calendar type never panics; at nanosecond resolution an instant outside the
+   i64 range is NaT (repo commit 3cb9707), every representable instant is its timestamp *)
+Theorem C16_from_cr_total : forall u c, exists x, from_cr u c = Ok x.
+Proof. exact from_cr_total. Qed.
+Theorem C16_from_cr_nano :
+  forall c, from_cr Nano c = Ok (if in_i64 (cr_total_ns c) then cr_total_ns c else NaT).
+Proof. exact from_cr_nano_value. Qed.
+
 (* as_cr is defined on every nanosecond timestamp and exactly on chrono's date range otherwise *)
 Theorem C16_as_cr_defined :
   forall u x, x <> NaT -> date_in_range (x * unit_ns u / 1000000000 / SECS_PER_DAY) = true ->
@@ -127,6 +135,10 @@ Example C16_ex_cr :
   as_cr Milli (-1) = Some (mkcr (-1) 999000000) /\ from_cr Milli (mkcr (-1) 999000000) = Ok (-1)
   /\ cr_civil (mkcr (-1) 999000000) = (1969, 12, 31) /\ as_cr Sec i64_max = None.
 Proof. vm_compute. auto. Qed.
+Example C16_ex_from_cr_out_of_range :
+  (* 1600-01-01 is a valid chrono instant but not an i64 nanosecond timestamp *)
+  from_cr Nano (mkcr (-11676096000) 0) = Ok NaT /\ from_cr Micro (mkcr (-11676096000) 0) = Ok (-11676096000000000).
+Proof. vm_compute. auto. Qed.
 Example C16_ex_calendar : civil_of_days 11016 = (2000, 2, 29) /\ days_of_civil (1900, 3, 1) = -25508.
 Proof. vm_compute. auto. Qed.
 
@@ -137,4 +149,5 @@ Print Assumptions C16_coarsen_as_chrono.
 Print Assumptions C16_refine_back.
 Print Assumptions C16_cr_roundtrip.
 Print Assumptions C16_cr_roundtrip_from.
+Print Assumptions C16_from_cr_nano.
 Print Assumptions C16_calendar_lawful.
